@@ -51,7 +51,8 @@ func poleShape(o geojson.Object) bool {
 		return false
 	}
 	r := o.Rect()
-	return poleLat(r.Min.Y) || poleLat(r.Max.Y)
+	// follow-up of the same cause: a longitude beyond +-180 (decoded geohash)
+	return poleLat(r.Min.Y) || poleLat(r.Max.Y) || r.Min.X < -180 || r.Max.X > 180
 }
 
 var srv *t38.Srv
@@ -79,7 +80,9 @@ type query struct {
 	Radius string `json:"radius,omitempty"` // "" = none
 }
 
-type step struct {
+type step = stepT
+
+type stepT struct {
 	Op  string   `json:"op"` // set | del | query
 	ID  string   `json:"id,omitempty"`
 	Obj *objSpec `json:"obj,omitempty"`
